@@ -783,16 +783,7 @@ func (c *Ctx) ruleR08d(rule string) {
 			okStart := posArgs[0] == ssa.Value(P)
 			okEnd := true
 			for _, l := range ssax.Leaves(posArgs[1]) {
-				e, isE := l.(*ssa.Extract)
-				good := false
-				if isE && e.Index == 0 {
-					if cl, ok := e.Tuple.(*ssa.Call); ok {
-						if sc := cl.Call.StaticCallee(); sc != nil && sc.Signature.Recv() != nil && ssax.PtrNamedIs(sc.Signature.Recv().Type(), "text", "Reader") {
-							good = true
-						}
-					}
-				}
-				if !good {
+				if !c.endFromReader(l, 0) {
 					okEnd = false
 				}
 			}
@@ -875,4 +866,54 @@ func (c *Ctx) throughPassingHelper(v ssa.Value) ssa.Value {
 		v = cl.Call.Args[k]
 	}
 	return v
+}
+
+// endFromReader: the position is result #0 of a Reader primitive — directly, or handed back by a library helper whose
+// every return either yields such a position or is a no-match return (a constant false result beside it).
+func (c *Ctx) endFromReader(v ssa.Value, depth int) bool {
+	e, ok := v.(*ssa.Extract)
+	if !ok || depth > 2 {
+		return false
+	}
+	cl, ok := e.Tuple.(*ssa.Call)
+	if !ok {
+		return false
+	}
+	sc := cl.Call.StaticCallee()
+	if sc == nil {
+		return false
+	}
+	if sc.Signature.Recv() != nil && ssax.PtrNamedIs(sc.Signature.Recv().Type(), "text", "Reader") {
+		if e.Index == 0 && token.IsExported(sc.Name()) {
+			return true
+		}
+	}
+	if cl.Call.IsInvoke() || !c.P.InLib(sc) || len(sc.Blocks) == 0 {
+		return false
+	}
+	for _, r := range ssax.Returns(sc) {
+		if e.Index >= len(r.Results) {
+			return false
+		}
+		noMatch := false
+		for _, rv := range r.Results {
+			if k, isB := ssax.ConstBool(rv); isB && !k {
+				noMatch = true
+			}
+			if ssax.IsNilConst(ssax.Strip(rv)) {
+				if _, isSl := rv.Type().Underlying().(*types.Slice); isSl {
+					noMatch = true
+				}
+			}
+		}
+		if noMatch {
+			continue
+		}
+		for _, l := range ssax.Leaves(r.Results[e.Index]) {
+			if !c.endFromReader(l, depth+1) {
+				return false
+			}
+		}
+	}
+	return true
 }
